@@ -326,13 +326,13 @@ fn cheating_prover<C: Cs>(ctx: &Ctx, idx: u64) {
         // bounds the cheating prover may claim in its larger-interval sub-proofs: the protocol's own, wider ones, and
         // the one the pinned tree used (2^T * rmax, F15). Its sub-prover answers for |remainder| < bound * 2^(l-3).
         let own = remainder_bound(&a, &b);
-        // a ladder in steps of 2^4 up to own * 2^(T+16): the cheater claims the SMALLEST bound under which its sub-prover
+        // a ladder in steps of 2 up to own * 2^(T+16): the cheater claims the SMALLEST bound under which its sub-prover
         // still answers, so that a verifier whose bound is too wide by any factor sees responses inside its window
         let mut claims: Vec<(String, Option<Integer>)> = vec![("own".to_string(), None)];
-        let mut k = 4u32;
+        let mut k = 1u32;
         while k <= t + 16 {
             claims.push((format!("own*2^{k}"), Some(Integer::from(&own << k))));
-            k += 4;
+            k += 1;
         }
         claims.push(("2^T*max(|b|,1)".to_string(), Some(Integer::from(&b.clone().abs().max(one.clone()) << t))));
         let mut targets: Vec<(&str, Integer)> = vec![
@@ -355,7 +355,7 @@ fn cheating_prover<C: Cs>(ctx: &Ctx, idx: u64) {
             let (ra, rb) = (Integer::from(&xa - sa.clone().pow(2)), Integer::from(&xb - sb.clone().pow(2)));
             // the smallest claimed bound under which the sub-prover can answer for both remainders
             let need = ra.clone().abs().max(rb.clone().abs());
-            let Some((cn, claim)) = claims.iter().find(|(_, c)| need <= Integer::from(c.as_ref().unwrap_or(&own) << (L_ - 2))) else {
+            let Some((cn, claim)) = claims.iter().find(|(_, c)| need <= Integer::from(c.as_ref().unwrap_or(&own) << L_)) else {
                 ctx.count("cheating_targets_beyond_the_sub_prover's_reach", 1);
                 continue;
             };
@@ -366,7 +366,7 @@ fn cheating_prover<C: Cs>(ctx: &Ctx, idx: u64) {
             ctx.count(&format!("cheating_prover_claimed_bound[{}]", if claim.is_none() { "own" } else { "wider" }), 1);
             let _ = cn;
             // a response lands inside a too-wide verifier window only with some probability: several attempts per target
-            let attempts = if control { 1 } else { 4 };
+            let attempts = if control { 1 } else { 8 };
             let mut last = None;
             let mut built = false;
             for _ in 0..attempts {
